@@ -692,7 +692,7 @@ def build_cases(ctx):
     cases = []
     all_shapes = shapes(4)
     if ctx.quick:
-        n_defs = 260
+        n_defs = 160
         sigs = []
         for _ in range(n_defs):
             sh = rng.choice(all_shapes + shapes(6)[::7])
@@ -838,7 +838,7 @@ def stream_kinds(ctx, reqs, metas):
     import jedi
     rng = ctx.subrng('kinds')
     atoms = ['a', 'b', 'c', '*', '/', '*v', '**k', '__d']
-    n = ctx.size(150, 1500)
+    n = ctx.size(100, 1500)
     for _ in range(n):
         toks = [rng.choice(atoms) for _ in range(rng.randint(1, 5))]
         # distinct names
@@ -882,7 +882,7 @@ def stream_pybind(ctx, reqs, metas):
     """the Python side of index_eq_pyBind_partial against CPython itself"""
     rng = ctx.subrng('pybind')
     shs = shapes(4)
-    n = ctx.size(700, 12000)
+    n = ctx.size(500, 12000)
     for _ in range(n):
         sh = rng.choice(shs)
         sig = rng.choice(sig_variants(sh, rng, False))
@@ -1066,10 +1066,10 @@ def run(ctx):
     run_corpus(ctx, cases)
     cases += build_cases(ctx)
     cases = dedupe(cases)
-    if ctx.quick and len(cases) > 5200:
+    if ctx.quick and len(cases) > 2400:
         rng = ctx.subrng('trim')
         corpus_n = sum(1 for c in cases if c.get('corpus'))
-        cases = cases[:corpus_n] + rng.sample(cases[corpus_n:], 5200 - corpus_n)
+        cases = cases[:corpus_n] + rng.sample(cases[corpus_n:], 2400 - corpus_n)
     run_real(cases)
     reqs = [request_of(c) for c in cases]
     metas = [('case', c, None) for c in cases]
